@@ -119,6 +119,21 @@ def build(tier, seed):
                 d.tags.append("C16")
             der_for(d, ["Hash"])
     # ---- other / generic
+    for key in ("opt", "arr", "fvec"):
+        for variant in range(3):
+            idx += 1
+            d = b.new(OTHER_INNERS[key], tags=list(tags))
+            if key == "opt":
+                san, pred = "x.map(|v| v.wrapping_abs())", "*x != Some(13)"
+            elif key == "arr":
+                san, pred = "{ let mut x = x; x.sort(); x }", "x[1] != 13"
+            else:
+                san, pred = "{ let mut x = x; x.truncate(2); x }", "x.len() < 3"
+            if variant == 1:
+                add_with_sanitizer(d, san, SPELLINGS[idx % 4])
+            if variant == 2:
+                add_predicate(d, pred, "closure")
+            der_for(d)
     for key in ("vec", "point", "cow", "gvec", "gord"):
         inner = OTHER_INNERS[key]
         for variant in range(4):
